@@ -32,6 +32,49 @@ CHECKS = {
  ),
 }
 
+def _partial(pid, decided, notdecided, rules):
+    return dict(
+        category="other",
+        text="Static necessary conditions only (this check decides the listed clauses, not the behaviour). Decided: " + decided +
+             " Not decided: " + notdecided,
+        design_ref="DESIGN.md 3 " + pid,
+        note="Rules: " + rules + ". Every rule re-derives its verdict from /repo's current IR/headers; anchors are symbols, never lines or text. "
+             "Trusts the clang-14 front end, the fixed opt pass list and the rule engines under vlib/.",
+        technique="static analysis: " + rules,
+    )
+
+
+G = "assume-and-explore guard analysis (path-sensitive range propagation over LLVM IR)"
+CHECKS.update({
+ "C01": _partial("C01", "no path of isValidCell returns true unless each of its five tests passed (top bits, base cell <= 121, no 7 up to res, all 7 after res, "
+                 "no deleted sub-sequence), each helper receives the index and the right bit field, and all five passing yields true.",
+                 "equality of the carry trick / clz%3 test with the digit predicate over 2^64 values (needs bit-precise carry reasoning: solver family); the closure clause over all outputs.",
+                 "R-CONJ " + G),
+ "C02": _partial("C02", "res outside 0..15 => E_RES_DOMAIN, non-finite lat/lng => E_LATLNG_DOMAIN, never success, no index written; boundary resolutions still accepted.",
+                 "containment of the point in the returned cell (floating-point geometry), success on arbitrary finite coordinates.", "R-GUARD " + G),
+ "C04": _partial("C04", "the rejection clauses of cellToParent (E_RES_DOMAIN / E_RES_MISMATCH), cellToChildrenSize and cellToCenterChild (E_RES_DOMAIN), for every index and resolution.",
+                 "the enumeration, order and partition clauses (arithmetic over all digit strings).", "R-GUARD " + G),
+ "C05": _partial("C05", "k < 0 => E_DOMAIN on all seven entry points, never success.",
+                 "equality with BFS, ring order, pentagon case analysis (data-dependent).", "R-GUARD " + G),
+ "C06": _partial("C06", "uncompactCells: a target resolution coarser than a visited cell (or above 15) => E_RES_MISMATCH, never success.",
+                 "losslessness / canonicity / order independence of compactCells (runtime data structure).", "R-GUARD " + G),
+ "C09": _partial("C09", "E_RES_MISMATCH for cells of different resolution on gridDistance, gridPathCellsSize, gridPathCells, cellToLocalIj; mode != 0 => E_OPTION_INVALID.",
+                 "distance = graph distance, inverse pair (data-dependent).", "R-GUARD " + G),
+ "C10": _partial("C10", "isValidDirectedEdge conjuncts (direction 1..6, mode 2 via getDirectedEdgeOrigin, not K on a pentagon, valid origin) and acceptance when all hold; "
+                 "E_NOT_NEIGHBORS and E_DIR_EDGE_INVALID clauses.", "boundary stretch geometry, destination round trip.", "R-CONJ, R-GUARD " + G),
+ "C11": _partial("C11", "isValidVertex conjuncts (mode 4, valid owner, re-derivation succeeds, index equals the canonical one); vertex numbers outside the cell's range => E_DOMAIN.",
+                 "agreement of the three incident cells, 2N-4 count, coordinates.", "R-CONJ, R-GUARD " + G),
+ "C12": _partial("C12", "all rows of the guard table (every documented rejection of an out-of-domain scalar: never success, documented code reachable, no write where stated).",
+                 "absence of undefined behaviour in general, hash-probe bounds, NEVER()/ALWAYS() reachability (statements about reachable values).", "R-GUARD/R-CONJ " + G),
+ "C13": _partial("C13", "the three rejection clauses of childPosToCell (E_RES_DOMAIN, E_RES_MISMATCH, E_DOMAIN via validateChildPos incl. position == size) and of cellToChildPos.",
+                 "that the two digit/offset loops are mutually inverse and in cellToChildren order.", "R-GUARD " + G),
+ "C14": _partial("C14", "resolution-mismatch rejection of gridPathCells / gridPathCellsSize.", "contiguity / shortest path (floating interpolation).", "R-GUARD " + G),
+ "C15": _partial("C15", "flags outside {0,1,2,3} => E_OPTION_INVALID on both experimental entry points (never success).",
+                 "what each containment mode means geometrically, nestedness, the size estimate being an upper bound.", "R-GUARD " + G),
+ "C20": _partial("C20", "sz < 17 => E_MEMORY_BOUNDS with the buffer untouched and sz = 17 accepted; stringToH3 stores a result only when exactly one item was converted, otherwise returns an error.",
+                 "nothing beyond the libc semantics of the conversion (format check pending).", "R-GUARD " + G),
+})
+
 NA = {
  "C07": "membership of a cell is decided by floating-point ray casting against arbitrary caller polygons plus a data-dependent flood fill; "
         "no clause about which cells are returned is visible in the shape of the code, and the size clause rests on a floating-point value fact "
